@@ -409,6 +409,50 @@ func TestCheck(t *testing.T) {
 			}
 		}
 		rec(0)
+		// outside the documented alphabet (signed subscripts): nothing is asserted about acceptance, but
+		// neither CreatePath nor any evaluation of an accepted path may panic
+		if rt.E.Shard == 0 {
+			signed := []byte("$[]-01.a*")
+			var walk func(b []byte, d int)
+			walk = func(b []byte, d int) {
+				if fails > 3 {
+					return
+				}
+				ps := string(b)
+				if strings.Contains(ps, "-") && strings.HasPrefix(ps, "$") {
+					rt.Journal("enum", func() string { return fmt.Sprintf(`{"path":%q}`, ps) })
+					var p *gojson.Path
+					var err error
+					if pv := rt.Guard(func() { p, err = gojson.CreatePath(ps) }); pv != nil {
+						t.Error(rt.Fail(prop, "enum", Case{Path: ps}, "CreatePath(%q) panicked: %v", ps, pv))
+						fails++
+					} else if err == nil {
+						for _, d := range docs {
+							if pv := rt.Guard(func() {
+								p.Extract([]byte(d))
+								var v, src, dst interface{}
+								p.Unmarshal([]byte(d), &v)
+								stdjson.Unmarshal([]byte(d), &src)
+								p.Get(src, &dst)
+							}); pv != nil {
+								t.Error(rt.Fail(prop, "enum", Case{Path: ps, Doc: d}, "evaluating the accepted path %q panicked: %v", ps, pv))
+								fails++
+								break
+							}
+						}
+						rt.Label("accepted path outside the documented alphabet (no-panic only)")
+					}
+					mine++
+				}
+				if d == 6 {
+					return
+				}
+				for _, a := range signed {
+					walk(append(b, a), d+1)
+				}
+			}
+			walk([]byte("$"), 1)
+		}
 		rt.Count("cases/enum", mine)
 		rt.NonTrivialDistinct(mine)
 		rt.Exhaustive(fmt.Sprintf("all path strings of length <= %d over %q", L, alpha))
